@@ -108,6 +108,8 @@ def scope(tier, seed):
     return {'graphs': '%d (quick: the six 3-state structures and every other 1-2 state one, parity by '
             'seed)' % len(graphs()), 'namings': sorted(NAMINGS), 'label schemes': sorted(EXTRA_LABELS),
             'formulas per checker': 12,
+            'shared label objects': 'label sets shared between states / frozensets via replace_labelling_function; '
+                                    'F given as sets, frozensets, the states view, dict key views',
             'extremes': 'the empty structure Kripke() (all formulas, 4 F values); chains, reversed chains and '
                         'rings of 1200 and 2500 states with CTL-shaped formulas through CTL and CTL*',
             'fresh-name collisions': 'CTL*: per formula the structure is labelled with exactly the fresh '
@@ -115,6 +117,54 @@ def scope(tier, seed):
                                      'renamed to format-hostile strings ({p}, %(q)s, {0}, p{, }%s)', 'F': ['None', '[set()]', '[{first state}]'],
             'histories': ['call, clear result, call', 'call, add foreign object, call',
                           'call, discard a member, call', 'call, call, mutate first, compare second, call']}
+
+
+def run_shared(k, naming, acc):
+    """Label sets that are the caller's own objects, shared between equally labelled states, installed
+    with replace_labelling_function; fairness constraints given as sets, frozensets and key views."""
+    nm = NAMINGS[naming]
+    names = [nm(i) for i in range(k.n)]
+    sem = Sem(k)
+    inv = dict((repr(x), i) for i, x in enumerate(names))
+    for variant in ('shared', 'frozen'):
+        def fresh():
+            K_ = Kripke(S=names, R=[(names[i], names[j]) for i in range(k.n) for j in k.succ[i]])
+            pool = {}
+            if variant == 'shared':
+                L_ = dict((names[i], pool.setdefault(k.lab[i], set(k.lab[i]))) for i in range(k.n))
+            else:
+                L_ = dict((names[i], frozenset(k.lab[i])) for i in range(k.n))
+            K_.replace_labelling_function(L_)
+            return K_
+        Kl = fresh()
+        snap = lib.snapshot_kripke(Kl)
+        for logic in ('CTL', 'LTL', 'CTLS'):
+            if variant == 'frozen' and logic == 'CTLS':
+                continue      # the CTL* checker adds fresh atoms to the label sets of its clone
+            for f in FORMS[logic][:8]:
+                for Fi in range(5):
+                    F = [None, [set()], [set([names[0]])], [Kl.states()], [dict((x, 1) for x in names[:1]).keys(),
+                                                                          frozenset(names)]][Fi]
+                    kw = {} if F is None else {'F': F}
+                    r = call(lib.LANGS[logic].modelcheck, Kl, lib.build(f, lib.LANGS[logic]), **kw)
+                    acc.ev(1, 1)
+                    acc.add('transitions')
+                    case = {'k': k.to_json(), 'naming': naming, 'labels': 'shared-objects', 'logic': logic,
+                            'f': spaces.to_jsonable(f), 'f_str': spaces.fstr(f), 'F': Fi, 'variant': variant}
+                    if r[0] != 'ok':
+                        acc.violation('exception', case, 'a set of states', r[1:])
+                        Kl = fresh()
+                        continue
+                    if not isinstance(r[1], set) or not set(r[1]) <= set(names):
+                        acc.violation('non-state-in-result', case, None, sorted(map(repr, r[1])))
+                        continue
+                    if Fi == 0 and naming in PLAIN_NAMINGS:
+                        got = frozenset(inv[repr(x)] for x in r[1])
+                        if got != sem.sat(f):
+                            acc.violation('wrong-answer', case, sorted(sem.sat(f)), sorted(got))
+                    if lib.snapshot_kripke(Kl) != snap:
+                        acc.violation('structure-modified', case)
+                        Kl = fresh()
 
 
 def run_extremes(acc):
@@ -318,6 +368,19 @@ def run_fresh(k, naming, acc):
             if not gen:
                 continue
             extra = gen + ['[%s(0)]' % g for g in gen]
+            # names that differ from a generated one only in a trailing counter (a generator that numbers
+            # its fresh atoms must still avoid existing labels)
+            import re as _re
+            for g in gen:
+                mm = _re.search(r'(\d+)(\D*)$', g)
+                if mm:
+                    n0 = int(mm.group(1))
+                    for d_ in range(1, 9):
+                        extra.append(g[:mm.start(1)] + str(n0 + d_) + mm.group(2))
+                else:
+                    for d_ in range(0, 12):
+                        extra.append('%s#%d' % (g, d_))
+                        extra.append('%s%d' % (g, d_))
             Kl = Kripke(S=names, R=R, L=labels(extra))
             snap = lib.snapshot_kripke(Kl)
             res = call(lib.CTLS.modelcheck, Kl, lib.build(f2, lib.CTLS))
@@ -348,6 +411,7 @@ def run_shard(shard, tier, seed, acc):
     naming = shard[2]
     if naming != 'formula-like':
         run_fresh(k, naming, acc)
+        run_shared(k, naming, acc)
     if k.n == 3 or naming not in ('mixed', 'formula-like', 'big-ints'):
         pass
     for scheme in sorted(EXTRA_LABELS):
@@ -367,7 +431,9 @@ def replay(art):
         run_extremes(acc)
         return {'violates': acc.d['nviol'] > 0, 'detail': acc.d['violations'][:1]}
     k = spaces.K.from_json(c['k'])
-    if c['labels'] == 'fresh-exact':
+    if c['labels'] == 'shared-objects':
+        run_shared(k, c['naming'], acc)
+    elif c['labels'] == 'fresh-exact':
         run_fresh(k, c['naming'], acc)
     else:
         run_group(k, c['naming'], c['labels'], acc)
